@@ -28,7 +28,11 @@ ASSUMPTIONS = [
     'text is drawn from U+0001..U+00FF (line breaks, tabs, control characters, Latin-1 letters included); case-'
     'insensitivity is modelled as Python str.lower() on that range (A-Z, À-Þ move 32 up; ß and every non-letter are '
     'unchanged; checked against Python for all 256 code points); text beyond Latin-1 and text spelling an error code are '
-    'not sent; cases holding ß are ungoverned (the property does not decide its case pairing)',
+    'not sent by the random streams; cases holding ß or letters beyond Latin-1 (a deterministic block with ß, ﬁ, ı/İ, ǅ, '
+    'ς/σ in their lower-case forms, on which str.lower() is the identity) are governed only where length and `?` '
+    'alone fix the answer (texts of different length are never equal; `?` is exactly one character), otherwise '
+    'ungoverned; İ is not combined with wildcards (str.lower() turns it into two characters, so the code itself makes '
+    '`?` miss it — recorded, not repaired in this round)',
     'numbers are dyadic rationals sent exactly; NaN/inf are not generated',
     'match_type / index arguments given as text are modelled only as "not a number" (#VALUE!); non-integral indices '
     'are not generated (the code raises TypeError on table[1.5])',
@@ -56,6 +60,10 @@ SPECIAL_PATTERNS = ['a?b', 'a*b', '*b', 'a*', '?\n?', 'a\n*', '*\n', '???', 'É*
 BOOLS = [False, True]
 ERRS = ['#N/A', '#DIV/0!']
 PATTERNS = ['a*', '?b', '*', '?', 'A?C', '*b*', '??', 'a.*', 'a+*', '(*', '[ab]?', 'a~?', '~*', 'b~*', 'a~', '~a?']
+UNI_CELLS = ['Straße', 'Strasse', 'STRASSE', 'ß', 'ss', 'ﬁ', 'fi', 'ı', 'İ', 'i', 'ǅ', 'ς', 'σ', 'oς', 'oσ']
+UNI_LOOKUPS = ['strasse', 'STRASSE', 'straße', 'Straße', 'stra?e', 'stra??e', 'STRA?E', 'stra*e', '?', '??', 'ss', 'ß',
+               'fi', 'ﬁ', 'f?', '?i', 'i', 'I', 'ı', 'ǅ', 'ς', 'σ', 'o?']
+UNI_TWINS = [('Straße', 'Strasse'), ('ß', 'ss'), ('ﬁ', 'fi'), ('ς', 'σ'), ('ı', 'i')]
 SMALL = [0, 1, 'a', 'B', 'b', True, False, None, '#N/A']
 SMALL_LOOK = [0, 1, 2, 'a', 'b', 'A', 'c', '?', True, False, None]
 
@@ -244,6 +252,20 @@ def cases(tier, rng):
         yield mcase(v, sp_sorted, 1, 'col', classify(sp_sorted))
         yield mcase(v, sp_sorted[::-1], -1, 'row', classify(sp_sorted[::-1]))
         yield mcase(v, sp_sorted, 0, 'col', classify(sp_sorted), via='formula')
+    # --- 0c. letters whose case mapping is special (ß, ﬁ, ı/İ, ǅ, ς/σ): what the statement decides whatever the case
+    #         pairing is — texts of different length are never equal, `?` is exactly one character of the cell
+    for v in UNI_LOOKUPS:
+        for x in UNI_CELLS:
+            if 'İ' in x and ('?' in v or '*' in v):
+                continue     # str.lower() turns İ into two characters; not generated with wildcards (see ASSUMPTIONS)
+            for vec in ([x], ['zz', x], [1, x, x.upper() if x.isascii() else x]):
+                yield mcase(v, vec, 0, 'col', classify(vec))
+            yield tcase('vlookup', v, [['zz', 1], [x, 2]], 2, False, 'unsorted')
+            yield tcase('hlookup', v, [['zz', x], [1, 2]], 2, False, 'unsorted')
+        for a, b in UNI_TWINS:
+            for vec in ([a, b], [b, a]):
+                yield mcase(v, vec, 0, 'row', classify(vec))
+                yield tcase('vlookup', v, [[vec[0], 1], [vec[1], 2]], 2, False, classify(vec))
     # --- 1. small scope exhaustive: every vector up to length 3 (4) x lookups x match types
     count = 0
     for n in range(1, 5 if thorough else 4):
@@ -448,11 +470,38 @@ def _plain_lookup(v):
     return tclass(v) in 'nsb'
 
 
+def _simple_pattern(v):
+    """text lookup that is plain or made of literals and `?` only: it can only equal / match a cell of its own length"""
+    return isinstance(v, str) and v not in core.ERR_TAGS and '*' not in v and '~' not in v
+
+
+def _surely(v, x):
+    """v (plain or literals+`?`) certainly matches text x: same length and every position is `?`, the identical
+    character, or the same ASCII letter in the other case — true under any notion of case-insensitivity"""
+    return len(v) == len(x) and all(
+        p == '?' or p == ch or (p.isascii() and ch.isascii() and p.lower() == ch.lower()) for p, ch in zip(v, x))
+
+
+def _decided_exact(v, vec):
+    """the answer of MATCH(v, vec, 0) as far as length and `?` alone decide it: a position, '#N/A', or None when
+    some cell before the first sure match has v's length without surely matching (its equality hangs on case rules)"""
+    if not _simple_pattern(v):
+        return None
+    for i, x in enumerate(vec, 1):
+        if tclass(x) != 's' or len(x) != len(v):
+            continue
+        if _surely(v, x):
+            return i
+        return None
+    return '#N/A'
+
+
 def _case_undecided(c):
     """text holding a letter whose case pairing the property does not decide (`ß`: no single-character capital);
     the model follows Python's str.lower() there, ungoverned"""
     toks = [c.get('v', '')] + [x for r in c['arr'] for x in r]
-    return any(t.startswith('s:') and '223' in t[2:].split(',') for t in toks)
+    return any(t.startswith('s:') and t != 's:' and any(n == '223' or int(n) > 255 for n in t[2:].split(','))
+               for t in toks)
 
 
 def _governed_match(v, vec, mt, shape):
@@ -492,8 +541,15 @@ def governed(c):
     if op == 'index':
         return True      # integer arguments
     v = py(c['v'])
-    if not _plain_lookup(v) or _case_undecided(c):
+    if not _plain_lookup(v):
         return False
+    if _case_undecided(c):
+        # governed only where length and `?` alone fix the answer of an exact search
+        if op == 'match':
+            exact = py(c['mt']) == 0 and not isinstance(py(c['mt']), bool)
+        else:
+            exact = op in ('vlookup', 'hlookup') and not py(c['rl'])
+        return exact and _decided_exact(v, _searched(c)) is not None
     vec = _searched(c)
     shape = classify(vec)
     if op == 'match':
@@ -537,6 +593,21 @@ def oracles(results):
         op = c['op']
         top = c.get('via') == 'formula'
         out = [core.dec(t) for t in r.impl.split(' ')] if not r.impl.startswith('a:') else None
+        if op in ('match', 'vlookup', 'hlookup') and _simple_pattern(py(c['v'])):
+            exact = (py(c['mt']) == 0 and not isinstance(py(c['mt']), bool)) if op == 'match' else \
+                (not py(c['rl']) and 0 < py(c['k']) <= (len(c['arr'][0]) if op == 'vlookup' else len(c['arr'])))
+            if exact:
+                v, vec = py(c['v']), _searched(c)
+                pos = out[0] if op == 'match' else pyc.lib_call('match', v, tuple((x,) for x in vec), 0)
+                pos = int(pos) if isinstance(pos, (Fraction, int)) and not isinstance(pos, bool) else pos
+                if isinstance(pos, int) and isinstance(vec[pos - 1], str) and len(vec[pos - 1]) != len(v):
+                    yield c, (f'exact search for {v!r} answers position {pos} holding {vec[pos - 1]!r}: texts of '
+                              f'different length ({len(v)} vs {len(vec[pos - 1])} characters) are never equal and `?` is '
+                              f'exactly one character')
+                sure = next((i for i, x in enumerate(vec, 1) if tclass(x) == 's' and _surely(v, x)), None)
+                if sure is not None and not (isinstance(pos, int) and pos <= sure):
+                    yield c, (f'exact search for {v!r} answers {pos!r} although cell {sure} = {vec[sure - 1]!r} matches '
+                              f'it character by character (`?` = any one character, ASCII letters in either case)')
         if op == 'match':
             v, vec, mt = py(c['v']), _vec(c), py(c['mt'])
             if not governed(c):
